@@ -64,6 +64,8 @@ def f1(spec, x):
         if weight(x) % spec[1] == spec[2]:
             return 0 if spec[3] else ()
         return x
+    if op == 'wcap':        # feedback template: folds any value into a bounded entry-point-like int
+        return TOKEN_BASE + weight(x) % spec[1]
     if op == 'grow':        # feedback template: expands small ints, stops at K
         return (x + 1, x + 2) if x < spec[1] else ()
     if op == 'growback':    # feedback template with links back to ancestors (a crawler meeting a -> b -> a)
